@@ -1361,6 +1361,18 @@ func (f *FS) SeedSymlink(p, target string, uid, gid uint32) {
 }
 
 // SetOwnerMode sets owner and permission bits directly.
+// SetRawMode replaces an object's whole mode word, type bits included: a backend may report objects that are
+// neither regular files, directories nor symlinks (devices, pipes, sockets, "irregular" files).
+func (f *FS) SetRawMode(p string, mode os.FileMode) {
+	f.mu.Lock()
+	defer f.mu.Unlock()
+	_, _, n, err := f.resolve(p, false)
+	if err != nil || n == nil {
+		panic(fmt.Sprintf("vfs.SetRawMode %q: %v", p, err))
+	}
+	n.mode = mode
+}
+
 func (f *FS) SetOwnerMode(p string, perm os.FileMode, uid, gid uint32) {
 	f.mu.Lock()
 	defer f.mu.Unlock()
